@@ -408,7 +408,11 @@ class FromArgs(Generic[T]):
 
     def __setitem__(self, i: int, arg: T) -> None:
         if i in self._i_to_arg:
-            assert self._i_to_arg[i] == arg
+            # Compare by key, so that args which are equal but distinct, like 1 and
+            # True, are not merged
+            assert self._hash_fn(self._i_to_arg[i]) == self._hash_fn(
+                arg
+            ), f"Two different args at index {i}"
         self._i_to_arg[i] = arg
         self._arg_to_i[self._hash_fn(arg)] = i
 
